@@ -98,13 +98,25 @@ def generate(rng, tier, index, focus):
             nvox = int(rng.integers(1, span // v + 1))
             lo = int(rng.integers(reg[a][0], reg[a][1] - nvox * v + 1))
             box.append([lo, lo + nvox * v])
-        mode = specgen.choice(rng, ["continuous", "discrete", "etched"])
+        mode = specgen.choice(rng, ["continuous", "discrete", "etched"] + (["discrete", "discrete"] if dispersive else []))
         if mode == "etched":
             mats = {"etch": _mat(rng, mtier, lo=1.0, hi=2.0)}
         elif mode == "continuous":
             mats = {"a": _mat(rng, mtier, dispersive=dispersive and rng.uniform() < 0.5), "b": _mat(rng, mtier, dispersive=dispersive)}
         else:
-            mats = {f"m{j}": _mat(rng, mtier, dispersive=dispersive and not plain_dev and rng.uniform() < 0.6) for j in range(int(rng.integers(2, 5)))}
+            ml = [_mat(rng, mtier, dispersive=dispersive and not plain_dev and rng.uniform() < 0.6) for j in range(int(rng.integers(2, 5)))]
+            if dispersive and not plain_dev and not any(x.get("dispersion") for x in ml):
+                ml[int(rng.integers(0, len(ml)))]["dispersion"] = specgen.rand_dispersion(rng, p_per_axis=0.0)
+            # material names are labels only: in half of the devices their alphabetical order is the reverse of the permittivity
+            # order (tables kept per material must all follow one common order, whatever the names are)
+
+            def _pkey(x):
+                pv = x["permittivity"]
+                return float(np.trace(np.array(pv))) if isinstance(pv, list) and isinstance(pv[0], list) else float(np.sum(pv)) if isinstance(pv, list) else float(pv)
+
+            if rng.uniform() < 0.5:
+                ml = sorted(ml, key=_pkey, reverse=True)
+            mats = {f"m{j}": x for j, x in enumerate(ml)}
         devices.append({"name": f"dev{i}_{tag}", "box": box, "voxel": voxel, "mode": "continuous" if mode == "etched" else mode, "etch": mode == "etched", "materials": mats})
     # probe cells: one static cell per device material in the x = 0 column (reference vectors)
     j = 0
